@@ -1,5 +1,7 @@
 // instr: rewrite package qualifiers of selected calls in Go files.
-// usage: instr -map atomic.*=path/vatomic,unix.Write=path/vunix ... file.go
+// usage: instr -map atomic.*=path/vatomic,unix.Write=path/vunix [-ident epollWait=vEpollWait] file.go ...
+// -map   pkg.Func=importpath : a call pkg.Func(...) becomes v<pkg>_.Func(...) with v<pkg>_ importing importpath
+// -ident name=newname        : a call name(...) of a package-level function becomes newname(...)
 package main
 
 import (
@@ -16,13 +18,25 @@ import (
 
 func main() {
 	mapping := flag.String("map", "", "comma list: pkg.Func=importpath (Func may be *)")
+	identMap := flag.String("ident", "", "comma list: name=newname for calls of package-level functions")
 	flag.Parse()
 	type rule struct{ pkg, fn, imp string }
 	var rules []rule
 	for _, m := range strings.Split(*mapping, ",") {
+		if m == "" {
+			continue
+		}
 		kv := strings.SplitN(m, "=", 2)
 		pf := strings.SplitN(kv[0], ".", 2)
 		rules = append(rules, rule{pf[0], pf[1], kv[1]})
+	}
+	idents := map[string]string{}
+	for _, m := range strings.Split(*identMap, ",") {
+		if m == "" {
+			continue
+		}
+		kv := strings.SplitN(m, "=", 2)
+		idents[kv[0]] = kv[1]
 	}
 	for _, file := range flag.Args() {
 		fset := token.NewFileSet()
@@ -35,6 +49,13 @@ func main() {
 		ast.Inspect(f, func(nd ast.Node) bool {
 			call, ok := nd.(*ast.CallExpr)
 			if !ok {
+				return true
+			}
+			if fid, ok := call.Fun.(*ast.Ident); ok {
+				if nn, ok := idents[fid.Name]; ok && (fid.Obj == nil || fid.Obj.Kind == ast.Fun) {
+					fid.Name = nn
+					n++
+				}
 				return true
 			}
 			sel, ok := call.Fun.(*ast.SelectorExpr)
